@@ -802,4 +802,295 @@ theorem store_history_exact (auth : Auth) (b₀ : B) (h0 : Pristine b₀) (hst :
     exact (toStored_absFrom 0 _ (run_storeWF auth evs b₀ hst)).symm
   · rw [h, absLog_seq, absLog_length]
 
+/-! ### replay: the model's query is the specification's "last N matching" -/
+
+theorem levelPrefix_eq : ∀ (q s : Path), Spec.levelPrefix q s =
+    (decide (q.length ≤ s.length) &&
+      (q.zip s).all (fun (a, x) => a == x || a == Trie.wildcard || a == Trie.multiWildcard))
+  | [], _ => by simp [Spec.levelPrefix]
+  | _ :: _, [] => by simp [Spec.levelPrefix]
+  | a :: q, x :: s => by
+      simp only [Spec.levelPrefix, levelPrefix_eq q s, List.length_cons, List.zip_cons_cons, List.all_cons,
+        Nat.add_le_add_iff_right]
+      cases (a == x || a == Trie.wildcard || a == Trie.multiWildcard) <;> simp
+
+theorem ssidMatches_cons (c c' : UInt32) (q s : Path) :
+    ssidMatches (c :: q) (c' :: s) = (c' == c && q.take 1 == s.take 1 && Spec.levelPrefix q s) := by
+  rw [levelPrefix_eq]
+  unfold ssidMatches
+  simp only [List.length_cons, Nat.add_le_add_iff_right, List.zip_cons_cons, List.all_cons]
+  have h2 : ((c :: q).take 2 == (c' :: s).take 2) = (c == c' && q.take 1 == s.take 1) := by
+    show ((c :: q.take 1) == (c' :: s.take 1)) = _
+    rw [List.cons_beq_cons]
+  rw [h2]
+  by_cases hcc : c = c'
+  · subst hcc
+    simp only [beq_self_eq_true, Bool.true_and, Bool.true_or]
+    cases decide (q.length ≤ s.length) <;> cases (q.take 1 == s.take 1) <;> simp
+  · have h1 : (c == c') = false := by simpa using hcc
+    have h3 : (c' == c) = false := by simpa using fun h => hcc h.symm
+    simp [h1, h3]
+
+theorem matches_absRec (c : UInt32) (q : Path) (k : Nat) (m : Stored) (h : m.ssid ≠ []) :
+    (absRec k m).matches c q = ssidMatches (c :: q) m.ssid := by
+  obtain ⟨ssid, ch, p, t⟩ := m
+  cases ssid with
+  | nil => exact absurd rfl h
+  | cons c' s => rw [ssidMatches_cons]; rfl
+
+theorem filter_absFrom (c : UInt32) (q : Path) : ∀ (k : Nat) (s : List Stored), StoreWF s →
+    ((absFrom k s).filter (Spec.Rec.matches c q)).map Spec.Rec.toStored =
+      s.filter (fun m => ssidMatches (c :: q) m.ssid)
+  | _, [], _ => rfl
+  | k, m :: ms, h => by
+      have hm : m.ssid ≠ [] := h m (by simp)
+      have ih := filter_absFrom c q (k + 1) ms (fun x hx => h x (by simp [hx]))
+      simp only [absFrom, List.filter_cons, matches_absRec c q k m hm]
+      split
+      · rw [List.map_cons, ih, toStored_absRec k m hm]
+      · exact ih
+
+/-- the model's history query, in the words of the specification -/
+theorem queryStore_abs (b : B) (h : StoreWF b.store) (c : UInt32) (q : Path) (n : Nat) :
+    queryStore b (c :: q) n =
+      (Spec.lastN n ((absLog b.store).filter (Spec.Rec.matches c q))).map Spec.Rec.toStored := by
+  unfold queryStore Spec.lastN absLog
+  dsimp only
+  rw [← filter_absFrom c q 0 b.store h, List.map_drop, List.length_map]
+
+theorem replay_pkts (name : String) (l : List Spec.Rec) :
+    (l.map Spec.Rec.toStored).map (fun m => (name, Pkt.pub m.channel m.payload)) =
+      l.map (fun r => (name, Pkt.pub r.channel r.payload)) := by
+  rw [List.map_map]; rfl
+
+theorem Spec.acceptedSub_some {auth : Auth} {banned : List Bytes} {topic : Bytes} {g : Grant}
+    (h : Spec.acceptedSub auth banned topic = some g) :
+    (parseChannel (fixTopic topic)).ctype ≠ chInvalid ∧
+    auth banned (parseChannel (fixTopic topic)) permRead = some g ∧ g.has permExtend = false := by
+  unfold Spec.acceptedSub at h
+  dsimp only at h
+  by_cases h1 : (parseChannel (fixTopic topic)).ctype = chInvalid
+  · rw [if_pos (by simp [h1])] at h; cases h
+  · rw [if_neg (by simpa using h1)] at h
+    refine ⟨h1, ?_⟩
+    cases hg : auth banned (parseChannel (fixTopic topic)) permRead with
+    | none => rw [hg] at h; cases h
+    | some g' =>
+        rw [hg] at h
+        dsimp only at h
+        cases hx : g'.has permExtend with
+        | true => rw [hx] at h; simp at h
+        | false =>
+            rw [hx] at h
+            simp only [Bool.false_eq_true, if_false, Option.some.injEq] at h
+            subst h
+            exact ⟨rfl, hx⟩
+
+/-- **replay, in one state**: an accepted SUBSCRIBE of an open connection is answered with presence
+notifications (to the watchers of the channel), then exactly the records `Spec.replay` names — as
+PUBLISH packets to the subscriber, channel and payload unchanged, in order of arrival — and then the
+SUBACK; the store is not changed -/
+theorem replay_refined (auth : Auth) (b : B) (hwf : StoreWF b.store) (now : Int) (name : String) (c : Conn)
+    (mid : UInt16) (topic : Bytes) (qos : UInt8) (g : Grant)
+    (hc : b.conn? name = some c) (ha : c.alive = true)
+    (hacc : Spec.acceptedSub auth b.banned topic = some g)
+    (hwin : Spec.inWindow now (parseChannel (fixTopic topic)).window = true) :
+    let ch := parseChannel (fixTopic topic)
+    ∃ notes : Out, (∀ e ∈ notes, ∃ t f, e.2 = Pkt.json t f) ∧
+      (step auth b name (.subscribe mid topic qos)).2 =
+        notes ++ (Spec.replay now (absLog b.store) g ch.query ch.last ch.window).map
+                    (fun r => (name, Pkt.pub r.channel r.payload))
+              ++ [(name, .suback mid [qos])] := by
+  intro ch
+  obtain ⟨hv, hauth, hx⟩ := Spec.acceptedSub_some hacc
+  rw [step_subscribe_eq auth b name c mid topic qos g hc ha hv hauth hx]
+  refine ⟨(subscribeConn b c (g.contract :: ch.query) ch.channel).2,
+    fun e he => subscribeConn_out_json _ _ _ _ e he, ?_⟩
+  dsimp only
+  have hst := (subscribeConn_frame b c (g.contract :: ch.query) ch.channel).1
+  have hq : ∀ l, queryStore (subscribeConn b c (g.contract :: ch.query) ch.channel).1 (g.contract :: ch.query) l =
+      queryStore b (g.contract :: ch.query) l := by
+    intro l; unfold queryStore; rw [hst]
+  congr 2
+  rw [hq, queryStore_abs b hwf, replay_pkts]
+  unfold Spec.replay
+  rw [hwin]
+  cases hl : g.has permLoad with
+  | false => simp
+  | true =>
+      simp only [Bool.not_true, Bool.false_eq_true, if_false]
+      congr 2
+      unfold Spec.limitOf
+      cases ch.last <;> rfl
+
+/-! ### the history-level theorems about replay -/
+
+/-- the client is open in the specification state -/
+def Spec.StoreState.isOpen (s : Spec.StoreState) (name : String) : Bool :=
+  match s.client? name with
+  | some i => i.open_
+  | none => false
+
+theorem conn_of_isOpen {b : B} {name : String} (h : (absStore b).isOpen name = true) :
+    ∃ c, b.conn? name = some c ∧ c.alive = true := by
+  unfold Spec.StoreState.isOpen at h
+  rw [client?_abs] at h
+  cases hc : b.conn? name with
+  | none => rw [hc] at h; cases h
+  | some c => rw [hc] at h; exact ⟨c, rfl, h⟩
+
+theorem Spec.replayFor_accepted {auth : Auth} {s : Spec.StoreState} {topic : Bytes} {g : Grant} (now : Int)
+    (h : Spec.acceptedSub auth s.banned topic = some g) :
+    Spec.replayFor auth now s topic =
+      Spec.replay now s.log g (parseChannel (fixTopic topic)).query (parseChannel (fixTopic topic)).last
+        (parseChannel (fixTopic topic)).window := by
+  unfold Spec.replayFor; rw [h]
+
+theorem Spec.replay_noload {now : Int} {L : List Spec.Rec} {g : Grant} {q : Path} {last : Option Int}
+    {w : Int × Int} (h : g.has permLoad = false) : Spec.replay now L g q last w = [] := by
+  unfold Spec.replay; rw [h]; rfl
+
+/-- **C07, replay, for every history**: after any well-formed history from a pristine broker
+(whose store, if not empty, files every message under a contract), under every authorizer, an
+accepted SUBSCRIBE of an open client — the present lying inside its from/until window, see the
+note on time in `Spec/Retained.lean` — is answered with presence notifications, then, as PUBLISH
+packets to the subscriber in order of arrival, exactly the records `Spec.replay` takes from the LOG
+OF THE SPECIFICATION after the same history — the last N matching ones when the key has the load
+permission, none otherwise — and then, after all of them, the SUBACK. The subscription changes
+neither the log nor the store. -/
+theorem replay_history_exact (auth : Auth) (b₀ : B) (h0 : Pristine b₀) (hst : StoreWF b₀.store)
+    (evs : List Spec.Ev) (hwf : Spec.wellFormed evs = true)
+    (now : Int) (name : String) (mid : UInt16) (topic : Bytes) (qos : UInt8) (g : Grant)
+    (hopen : (Spec.runStore auth (Spec.initStore b₀) evs).isOpen name = true)
+    (hacc : Spec.acceptedSub auth (Spec.runStore auth (Spec.initStore b₀) evs).banned topic = some g)
+    (hwin : Spec.inWindow now (parseChannel (fixTopic topic)).window = true) :
+    let S := Spec.runStore auth (Spec.initStore b₀) evs
+    let ch := parseChannel (fixTopic topic)
+    let r := step auth (run auth b₀ evs) name (.subscribe mid topic qos)
+    (∃ notes : Out, (∀ e ∈ notes, ∃ t f, e.2 = Pkt.json t f) ∧
+      r.2 = notes ++ (Spec.replay now S.log g ch.query ch.last ch.window).map
+                        (fun m => (name, Pkt.pub m.channel m.payload))
+                  ++ [(name, .suback mid [qos])]) ∧
+    (g.has permLoad = false → Spec.replay now S.log g ch.query ch.last ch.window = []) ∧
+    Spec.replayFor auth now S topic = Spec.replay now S.log g ch.query ch.last ch.window ∧
+    absStore r.1 = S ∧ r.1.store = (run auth b₀ evs).store := by
+  intro S ch r
+  have habs : absStore (run auth b₀ evs) = S := store_history_refines auth b₀ h0 evs hwf
+  have hwf' : StoreWF (run auth b₀ evs).store := run_storeWF auth evs b₀ hst
+  have hopen' : (absStore (run auth b₀ evs)).isOpen name = true := by rw [habs]; exact hopen
+  obtain ⟨c, hc, ha⟩ := conn_of_isOpen hopen'
+  have hb : S.banned = (run auth b₀ evs).banned := by rw [← habs]; rfl
+  have hlog : S.log = absLog (run auth b₀ evs).store := by rw [← habs]; rfl
+  have hacc' : Spec.acceptedSub auth (run auth b₀ evs).banned topic = some g := by rw [← hb]; exact hacc
+  refine ⟨?_, fun h => Spec.replay_noload h, Spec.replayFor_accepted now hacc, ?_, ?_⟩
+  · rw [hlog]
+    exact replay_refined auth (run auth b₀ evs) hwf' now name c mid topic qos g hc ha hacc' hwin
+  · obtain ⟨hs, _, _⟩ := history_refines auth b₀ h0 evs hwf
+    show absStore (step auth (run auth b₀ evs) name (.subscribe mid topic qos)).1 = S
+    rw [step_abs auth _ name _ hs.names, habs]
+    have hcl : S.client? name = some (absInfo c) := by
+      rw [← habs, client?_abs, hc]; rfl
+    exact Spec.stepStore_idle hcl trivial
+  · obtain ⟨hv, hauth, hx⟩ := Spec.acceptedSub_some hacc'
+    exact (Broker.replay_exact auth (run auth b₀ evs) name c mid topic qos g hc ha hv hauth hx).1
+
+/-! ### what is not stored is never replayed -/
+
+/-- an event that appends nothing and is a PUBLISH leaves the specification state as it is -/
+theorem Spec.publish_unstored (auth : Auth) (s : Spec.StoreState) (n : String) (qos : UInt8) (retain : Bool)
+    (mid : UInt16) (topic payload : Bytes)
+    (h : Spec.stores auth s (.req n (.publish qos retain mid topic payload)) = none) :
+    Spec.applyStore auth s (.req n (.publish qos retain mid topic payload)) = s := by
+  simp only [Spec.applyStore, Spec.stepStore]
+  simp only [Spec.stores] at h
+  cases hi : s.client? n with
+  | none => rfl
+  | some i =>
+      rw [hi] at h
+      dsimp only at h ⊢
+      cases ho : i.open_ with
+      | false => rfl
+      | true =>
+          rw [ho] at h
+          simp only [if_true] at h
+          simp [h]
+
+/-- the property's words for "not to be stored": no retain flag and no positive ttl option, or
+a key without the store permission (the publisher being the client `i`) -/
+def Spec.unstorable (auth : Auth) (s : Spec.StoreState) (i : Spec.Client) (retain : Bool) (topic : Bytes) : Prop :=
+  (retain = false ∧ ∀ t, (parseChannel (i.resolve topic)).ttl = some t → t ≤ 0) ∨
+  (∀ g, auth s.banned (parseChannel (i.resolve topic)) permWrite = some g → g.has permStore = false)
+
+theorem Spec.requestedTtl_none {R : Nat} {ch : Channel} (h : ∀ t, ch.ttl = some t → t ≤ 0) :
+    Spec.requestedTtl R false ch = none := by
+  unfold Spec.requestedTtl
+  cases ht : ch.ttl with
+  | none => rfl
+  | some t =>
+      have := h t ht
+      dsimp only
+      rw [if_neg (by omega)]
+      rfl
+
+theorem Spec.stores_unstorable (auth : Auth) (s : Spec.StoreState) (n : String) (qos : UInt8) (retain : Bool)
+    (mid : UInt16) (topic payload : Bytes)
+    (h : ∀ i, s.client? n = some i → Spec.unstorable auth s i retain topic) :
+    Spec.stores auth s (.req n (.publish qos retain mid topic payload)) = none := by
+  simp only [Spec.stores]
+  cases hi : s.client? n with
+  | none => rfl
+  | some i =>
+      dsimp only
+      split
+      · simp only [Spec.appended, Spec.stored]
+        split
+        · rfl
+        split
+        · rfl
+        rename_i g hg
+        split
+        · rfl
+        rcases h i hi with ⟨hr, ht⟩ | hs
+        · subst hr
+          rw [Spec.requestedTtl_none ht]
+          split <;> rfl
+        · rw [hs g hg]; rfl
+      · rfl
+
+/-- **C07, "nothing else … is replayed"**: a message published without the retain flag and
+without a positive ttl option, or with a key that has no store permission, leaves no trace — the
+specification state, hence the log, after the whole history is the one after the history WITHOUT
+that publish, whatever follows; so (by `replay_history_exact`) every later accepted subscription
+is replayed exactly what it would have been replayed had the message never been published. -/
+theorem unstored_never_replayed (auth : Auth) (b₀ : B) (h0 : Pristine b₀) (hst : StoreWF b₀.store)
+    (h₁ : List Spec.Ev) (n : String) (pq : UInt8) (retain : Bool) (pm : UInt16) (ptopic payload : Bytes)
+    (h₂ : List Spec.Ev)
+    (hwf : Spec.wellFormed (h₁ ++ .req n (.publish pq retain pm ptopic payload) :: h₂) = true)
+    (hno : ∀ i, (Spec.runStore auth (Spec.initStore b₀) h₁).client? n = some i →
+             Spec.unstorable auth (Spec.runStore auth (Spec.initStore b₀) h₁) i retain ptopic) :
+    let evs := h₁ ++ .req n (.publish pq retain pm ptopic payload) :: h₂
+    let S' := Spec.runStore auth (Spec.initStore b₀) (h₁ ++ h₂)
+    Spec.runStore auth (Spec.initStore b₀) evs = S' ∧
+    absStore (run auth b₀ evs) = S' ∧
+    ∀ (now : Int) (name : String) (mid : UInt16) (topic : Bytes) (qos : UInt8) (g : Grant),
+      S'.isOpen name = true → Spec.acceptedSub auth S'.banned topic = some g →
+      Spec.inWindow now (parseChannel (fixTopic topic)).window = true →
+      ∃ notes : Out, (∀ e ∈ notes, ∃ t f, e.2 = Pkt.json t f) ∧
+        (step auth (run auth b₀ evs) name (.subscribe mid topic qos)).2 =
+          notes ++ (Spec.replay now S'.log g (parseChannel (fixTopic topic)).query
+                      (parseChannel (fixTopic topic)).last (parseChannel (fixTopic topic)).window).map
+                        (fun m => (name, Pkt.pub m.channel m.payload))
+                ++ [(name, .suback mid [qos])] := by
+  intro evs S'
+  have hS : Spec.runStore auth (Spec.initStore b₀) evs = S' := by
+    show Spec.runStore auth _ (h₁ ++ _ :: h₂) = Spec.runStore auth _ (h₁ ++ h₂)
+    rw [Spec.runStore_append, Spec.runStore_cons, Spec.runStore_append,
+      Spec.publish_unstored auth _ n pq retain pm ptopic payload
+        (Spec.stores_unstorable auth _ n pq retain pm ptopic payload hno)]
+  refine ⟨hS, ?_, ?_⟩
+  · rw [← hS]; exact store_history_refines auth b₀ h0 evs hwf
+  · intro now name mid topic qos g hopen hacc hwin
+    rw [← hS] at hopen hacc ⊢
+    exact (replay_history_exact auth b₀ h0 hst evs hwf now name mid topic qos g hopen hacc hwin).1
+
 end Emitter.Broker
